@@ -27,6 +27,8 @@ var c13Sigma = func() []string {
 	s = append(s, "!deliver", "!extdel 1", "!extdel 2")
 	// the client hangs up in the middle of a multi-line response (after its status line)
 	s = append(s, "RETR 2 !hangup", "LIST !hangup")
+	// QUIT, and the client is gone before the answer can be written: QUIT was issued all the same
+	s = append(s, "QUIT !noread")
 	// a login whose spelling differs from the mailbox name it maps to (upper case, +tag, domain)
 	s = append(s, "USER U+tag@x.test")
 	return s
@@ -221,6 +223,18 @@ func c13Exec(c *fw.Ctx, be string, nmsgs int, seq []int, checkAll bool) (key str
 					}
 				}
 				continue
+			}
+			if line == "QUIT !noread" {
+				log = append(log, "C: QUIT   [and hangs up without reading the answer]")
+				_ = k.Send("QUIT")
+				ended = true
+				if inTxn {
+					quitInTxn = true
+					if last {
+						nontrivial = true
+					}
+				}
+				break
 			}
 			if cl, ok := strings.CutSuffix(line, " !hangup"); ok {
 				log = append(log, "C: "+cl+"   [and hangs up after the first line of the response]")
@@ -555,7 +569,7 @@ func c13Explore(c *fw.Ctx, be string, nm int, loggedIn bool) {
 			for i, l := range c13Sigma {
 				switch l {
 				case "STAT", "LIST", "UIDL", "RSET", "NOOP", "QUIT", "XY", " ", "DELE 1", "DELE 2", "DELE 99", "RETR 1", "RETR 2",
-					"LIST 1", "UIDL 2", "TOP 1 1", "!deliver", "!extdel 1", "!extdel 2", "RETR 2 !hangup", "LIST !hangup":
+					"LIST 1", "UIDL 2", "TOP 1 1", "!deliver", "!extdel 1", "!extdel 2", "RETR 2 !hangup", "LIST !hangup", "QUIT !noread":
 					alpha = append(alpha, i)
 				}
 			}
